@@ -743,8 +743,8 @@ func ruleENG15(c *Ctx) {
 						continue
 					}
 				}
-				if _, isAlloc := x.Addr.(*ssa.Alloc); isAlloc {
-					continue
+				if localTemp(x.Addr) {
+					continue // a local variable or the argument array of a variadic call (a log line)
 				}
 				other = append(other, p.InstrPos(in))
 			case *ssa.MapUpdate:
